@@ -163,28 +163,44 @@ def rule_ref(c, prog):
 
 
 def default_of(fn, get_node):
-    """the value used when `get_node` (an Option-returning lookup) is None: from `if let Some(..) = get {..} else {..}` or `.copied().unwrap_or(d)`"""
+    """the value used when `get_node` (an Option-returning lookup) is None: from `if let Some(..) = get {..} else {..}`,
+    `match get { Some(..) => .., None => .. }` or `.copied().unwrap_or(d)`"""
+    def value_of(els):
+        vals = []
+        for x in core.walk(els):
+            if x.get("k") == "MethodCall" and x["m"] in ("push", "push_back") and x["args"]:
+                vals.append(core.lit_value(x["args"][0]))
+            if x.get("k") == "Call" and (core.callee(x) or "").endswith("referent::Ref::none"):
+                vals.append("Ref::none")
+        tail = core.strip(els)
+        while tail.get("k") == "Block" and not tail["b"]["stmts"] and "expr" in tail["b"]:
+            tail = core.strip(tail["b"]["expr"])
+        v = core.lit_value(tail["b"]["expr"]) if tail.get("k") == "Block" and "expr" in tail["b"] else core.lit_value(tail)
+        if v is not None:
+            vals.append(v)
+        return vals[0] if len(vals) == 1 else (vals or "?")
+
+    def is_get(e):
+        e = core.strip(e)
+        while e.get("k") == "MethodCall" and e["m"] in ("copied", "cloned") and e is not get_node:
+            e = core.strip(e["recv"])
+        return e is get_node
     for n in core.walk_fn(fn):
-        if n.get("k") == "If" and core.strip(n["c"]).get("k") == "LetExpr" and core.strip(core.strip(n["c"])["init"]) is get_node and "f" in n:
-            els = n["f"]
-            vals = []
-            for x in core.walk(els):
-                if x.get("k") == "MethodCall" and x["m"] in ("push", "push_back") and x["args"]:
-                    vals.append(core.lit_value(x["args"][0]))
-                if x.get("k") == "Call" and (core.callee(x) or "").endswith("referent::Ref::none"):
-                    vals.append("Ref::none")
-            tail = core.strip(els)
-            if tail.get("k") == "Block" and "expr" in tail["b"]:
-                v = core.lit_value(tail["b"]["expr"])
-                if v is not None:
-                    vals.append(v)
-            return vals[0] if len(vals) == 1 else (vals or "?")
+        if n.get("k") == "If" and core.strip(n["c"]).get("k") == "LetExpr" and is_get(core.strip(n["c"])["init"]) and "f" in n:
+            return value_of(n["f"])
+        if n.get("k") == "Match" and n.get("src") in ("Normal", "Postfix") and is_get(n["e"]):
+            none_arms = [a for a in n["arms"] if "None" in core.pat_str(a["pat"]) or a["pat"].get("k") == "Wild"]
+            if len(none_arms) == 1:
+                return value_of(none_arms[0]["body"])
         if n.get("k") == "MethodCall" and n["m"] in ("unwrap_or", "unwrap_or_default", "unwrap_or_else", "map_or"):
             r = core.strip(n["recv"])
             while r.get("k") == "MethodCall" and r["m"] in ("copied", "cloned", "map"):
                 r = core.strip(r["recv"])
             if r is get_node:
                 if n["m"] == "unwrap_or":
+                    v = core.lit_value(n["args"][0])
+                    return v if v is not None else core.fingerprint(n["args"][0], 3)
+                if n["m"] == "map_or":
                     v = core.lit_value(n["args"][0])
                     return v if v is not None else core.fingerprint(n["args"][0], 3)
                 if n["m"] == "unwrap_or_default":
